@@ -1491,6 +1491,11 @@ pub fn run_transport(cfg: &TransportCfg, sc: &mut Sc) {
             sc.ex.rekey_manual(rd, ki, kr);
             check_nonces(sc, &dirs);
             sc.count("t.rekey_when_exhausted");
+            // (C15: a rekey changes the key and nothing else)
+            let (qs, qr) = (sc.ex.query(w).and_then(|q| q.sn), sc.ex.query(rd).and_then(|q| q.rn));
+            if qs != Some(u64::MAX) || qr != Some(u64::MAX) {
+                sc.viol("C15", format!("{}: rekeys of an exhausted direction moved its counters to {qs:?} / {qr:?}", cfg.name));
+            }
             let o = sc.ex.t_write(w, b"later", 64);
             if o.err() != Some("State(Exhausted)") {
                 sc.viol("C09", format!("{}: write at sending nonce 2^64-1 after rekeys gave {o:?}", cfg.name));
